@@ -2,6 +2,7 @@
 from __future__ import annotations
 
 import asyncio
+import contextvars
 from typing import Any, Dict, List, Optional
 
 from hypothesis import strategies as st
@@ -16,13 +17,15 @@ from vt.core.vloop import Deadlock, VirtualTimeLoop
 from vt.harness import depgraph as dg
 from vt.harness import worker as wh
 
+EXEC: contextvars.ContextVar = contextvars.ContextVar("vt_execution", default=None)
+
 PID = "C12"
 RULE = (
     "Hypothesis-generated programs: a task with a dependency DAG of 1-6 nodes (depth <= 3) mixing plain sync/async "
     "functions with the four teardown styles (generator, async generator, @contextmanager, @asynccontextmanager), each "
     "edge cached or use_cache=False, a node may fail before its yield (dependency-resolution failure), a yielding node "
     "may swallow or re-raise an exception thrown into it; task outcome return / raise / BaseException / timeout label "
-    "exceeded; propagate_exceptions on/off; three acknowledge types; 1-3 overlapping executions on the virtual-time "
+    "exceeded, the task function optionally with an asynchronous clean-up in its `finally` (so that after a timeout cancellation it needs further loop iterations to finish); propagate_exceptions on/off; three acknowledge types; 1-3 overlapping executions on the virtual-time "
     "loop. Oracle per execution over the log of open / saw / close / enter / exit / save / ack events: (a) every opened "
     "yielding node is closed exactly once; (b) closes are in reverse order of opens; (c) every close happens after the "
     "task function exited (or after the failing dependency) and before the result is stored, and before the ack for "
@@ -54,6 +57,7 @@ def cases() -> Any:
         "propagate": st.booleans(),
         "ack_type": st.sampled_from(["when_received", "when_executed", "when_saved"]),
         "starts": st.lists(st.sampled_from([0, 0, 0.05, 0.1]), min_size=1, max_size=3),
+        "cleanup": st.sampled_from([0, 0, 0.05, 0.2]),
     }))
 
 
@@ -74,7 +78,7 @@ def run_case(c: Dict[str, Any]) -> Outcome:
     cur: Dict[Any, int] = {}
 
     def LOG(kind: str, node_: Any = None, *payload: Any) -> None:
-        k = cur.get(asyncio.current_task())
+        k = EXEC.get()
         logs.setdefault(k, []).append((kind, node_) + payload)
 
     async def main() -> None:
@@ -88,7 +92,7 @@ def run_case(c: Dict[str, Any]) -> Outcome:
 
         b.result_backend = RB(tr)
         kind = {"ret": "ret", "raise": "raise", "base": "base", "timeout": "ret"}[c["outcome"]]
-        mod, task, src = dg.build(nodes, tdeps, {"kind": kind}, LOG)
+        mod, task, src = dg.build(nodes, tdeps, {"kind": kind, "cleanup": c.get("cleanup", 0)}, LOG)
         b.register_task(task, task_name="t")
         r = Receiver(b, executor=wh.Inline(), max_async_tasks=10, run_startup=False, propagate_exceptions=c["propagate"],
                      ack_type=AcknowledgeType(c["ack_type"]))
@@ -96,13 +100,14 @@ def run_case(c: Dict[str, Any]) -> Outcome:
         async def one(k: int, start: float) -> None:
             if start:
                 await asyncio.sleep(start)
-            cur[asyncio.current_task()] = k
+            EXEC.set(k)
             labels = {"timeout": 0.1} if c["outcome"] == "timeout" else {}
             slp = 0.5 if c["outcome"] == "timeout" else 0.05
             m = b.formatter.dumps(AsyncKicker("t", b, labels).with_task_id(f"id{k}")._prepare_message(k, slp)).message
             await r.callback(AckableMessage(data=m, ack=lambda: LOG("ack")))
 
         await asyncio.gather(*[one(k, s) for k, s in enumerate(c["starts"])])
+        await asyncio.sleep(1.0)   # let stragglers (a function still cleaning up after its callback returned) be observed
 
     try:
         try:
@@ -164,7 +169,7 @@ def run_case(c: Dict[str, Any]) -> Outcome:
                 out.add("C12.c", f"execution {k}: a dependency was closed after the result was stored; log={_brief(log)}")
             if c["ack_type"] != "when_received" and pos.get("ack") and max(closes) > min(pos["ack"]):
                 out.add("C12.c", f"execution {k}: a dependency was closed after the {c['ack_type']} ack; log={_brief(log)}")
-            if pos.get("exit") and min(closes) < max(pos["exit"]):
+            if pos.get("enter") and (not pos.get("exit") or min(closes) < max(pos["exit"])):
                 out.add("C12.c", f"execution {k}: a dependency was closed before the task function finished; log={_brief(log)}")
         entered = bool(pos.get("enter"))
         failed_dep = not entered
@@ -188,7 +193,7 @@ def run_case(c: Dict[str, Any]) -> Outcome:
     out.nontrivial = bool((multi_yield and nonret) or len(c["starts"]) >= 2)
     out.classes = [c["outcome"], c["ack_type"], "propagate" if c["propagate"] else "no_propagate"] + [cl for cl, f in (
         ("uncached_nested_yielding", info["uncached_nested"]), ("multi_yield", multi_yield), ("concurrent", len(c["starts"]) >= 2),
-        ("dependency_failure", any(nodes[i]["fail"] == "before" for i in dg.reachable(nodes, tdeps)))) if f]
+        ("async_cleanup", bool(c.get("cleanup"))), ("dependency_failure", any(nodes[i]["fail"] == "before" for i in dg.reachable(nodes, tdeps)))) if f]
     out.trace = {"log0": _brief(logs.get(0, []))}
     return out
 
